@@ -2,7 +2,10 @@
 `hashseq` lines carry a spec column (the standard digest of the concatenation, the serialised chaining value and the
 bit count after every block-aligned piece); `hashseqc` lines compare the complete padding state code<->model after every
 step, including refused steps.  check_impl: the final result equals the one-shot call of a fresh object on the
-concatenation, and bitcnt after every non-final piece is the number of bits fed so far."""
+concatenation, and bitcnt after every non-final piece is the number of bits fed so far.  Pieces may carry their bit
+length (`upd <hex> <L>`, `fin <hex> <L>`: the first L bits of the buffer count, L = 0 on a non-empty buffer included) and
+a line may re-initialise the object (`init` = h.initstate()) after an abandoned / finished / refused stream: the run after
+the last `init` is compared with the one-shot call of a FRESH object, the bit counter right after `init` must be 0."""
 import itertools
 from props.common import *
 from props import hashcommon as HC
@@ -11,6 +14,10 @@ PREFIX = ('hashseq',)
 LEAN_PROOFS = ['Proofs.C14']
 GEN_ITEMS = ['Hashes']
 TRUSTED = []
+RULE = ('`hashseq` pieces with explicit bit lengths: a message streamed through one reused buffer of 1-2 blocks (every piece = the whole '
+        'buffer + its valid bits; 0 bits of a non-empty buffer at the end / on an empty read), L = 0 on data and L = 8n of a longer '
+        'buffer on final and non-final pieces; histories `… | init | upd* fin` after 1..3 abandoned blocks, a finished or a refused '
+        'stream (bit counter observed after init)')
 ASSUMPTIONS = ['padmethod.bitcnt after the FINAL piece is 0 when the padding spilled into an extra block (C09: zero for a pad-only block): compared code<->model only']
 
 run_impl = HC.run_impl
@@ -21,26 +28,42 @@ def parse(line):
     return steps[0][0], steps[1:]
 
 
+def piece_of(st):
+    """(buffer, bit length or None) of an upd / fin step"""
+    return unhx(st[1]), (unoi(st[2]) if len(st) > 2 else None)
+
+
 def check_impl(line, res):
     op = line.split()[0]
     alg, steps = parse(line)
     kinds = [s[0] for s in steps]
-    # the property's shape: upd* fin, block-aligned upd pieces, no bitlen, no preset
-    if not (kinds and kinds[-1] == 'fin' and all(k == 'upd' for k in kinds[:-1]) and len(steps[-1]) == 2): return None
-    pieces = [unhx(s[1]) for s in steps]
+    # the property's shape: [anything … init] upd* fin — what was done to the object before the last `init` (an abandoned or
+    # a finished stream, refused steps) must not matter; every piece may carry its bit length: the first L bits of the buffer
+    # count (L = 0: nothing, whatever the buffer holds); non-final pieces are whole blocks
+    start = len(kinds) - kinds[::-1].index('init') if 'init' in kinds else 0
+    run = steps[start:]
+    if not (run and run[-1][0] == 'fin' and all(s[0] == 'upd' for s in run[:-1])): return None
     B = HC.blocklen(alg)
-    if any(len(p) % B for p in pieces[:-1]): return None
+    pieces = [piece_of(s) for s in run]
+    eff = [8 * len(p) if L is None else L for p, L in pieces]
+    if any(L > 8 * len(p) for (p, _), L in zip(pieces, eff)): return None          # refusals: C01 / the hashseqc lines
+    if any(L % (8 * B) for L in eff[:-1]): return None
     outs = res.split(';')
-    bad = lambda why: '%s %s pieces %s: %s' % (op, alg, [len(p) for p in pieces], why)
-    if len(outs) != len(steps) or any(o.startswith('ERR') for o in outs): return bad('a step was refused')
+    bad = lambda why: '%s %s pieces(bits) %s%s: %s' % (op, alg, ['%d/%d' % (8 * len(p), L) for (p, _), L in zip(pieces, eff)],
+                                                      ' after init on a used object' if start else '', why)
+    if len(outs) != len(steps): return bad('%d results for %d steps' % (len(outs), len(steps)))
+    cnt_of = lambda o: int(o.split(',')[1 if op == 'hashseq' else 2])
+    if start and cnt_of(outs[start - 1]) != 0: return bad('bitcnt %d right after initstate()' % cnt_of(outs[start - 1]))
+    if any(o.startswith('ERR') for o in outs[start:]): return bad('a step was refused')
     fed = 0
-    for p, o in zip(pieces[:-1], outs[:-1]):
-        fed += 8 * len(p)
-        f = o.split(',')
-        cnt = int(f[1]) if op == 'hashseq' else int(f[2])
-        if cnt != fed: return bad('bitcnt %d after %d bits' % (cnt, fed))
-    one = HC.run_hash([alg, hx(b''.join(pieces)), 'None'])
-    if outs[-1].split(',')[0] != one: return bad('differs from the one-shot digest %s' % one)
+    for L, o in zip(eff[:-1], outs[start:-1]):
+        fed += L
+        if cnt_of(o) != fed: return bad('bitcnt %d after %d bits' % (cnt_of(o), fed))
+    # one-shot on a fresh object, on the concatenation of the first L bits of every piece (no bit length when whole bytes)
+    M = b''.join(p[:L // 8] for (p, _), L in zip(pieces[:-1], eff[:-1])) + pieces[-1][0][:(eff[-1] + 7) // 8]
+    total = fed + eff[-1]
+    one = HC.run_hash([alg, hx(M), 'None' if total % 8 == 0 else str(total)])
+    if outs[-1].split(',')[0] != one: return bad('differs from the one-shot digest %s of the %d-bit concatenation' % (one, total))
     return None
 
 
@@ -66,10 +89,93 @@ def seq_line(op, alg, m, cuts_bytes):
     return '%s %s | %s' % (op, alg, ' | '.join(['upd ' + hx(p) for p in ps] + ['fin ' + hx(last)]))
 
 
+def readinto_line(op, alg, M, bufblocks, stall, rng):
+    """the message streamed through ONE reused buffer of bufblocks blocks (readinto style): every piece is the whole buffer
+    with the number of valid bits; a short read is the final piece (0 bits of a non-empty buffer at the end of a message of
+    whole buffers); read number `stall` returns nothing yet (bitlen 0, not the end)"""
+    B = HC.blocklen(alg)
+    buf = bytearray(rnd(rng, bufblocks * B))            # stale content
+    steps, pos, reads = [], 0, 0
+    while True:
+        if reads == stall: n, last = 0, False
+        else:
+            chunk = M[pos:pos + len(buf)]; n = len(chunk); buf[:n] = chunk; pos += n
+            last = n < len(buf)
+        reads += 1
+        steps.append('%s %s %d' % ('fin' if last else 'upd', hx(buf), 8 * n))
+        if last: return '%s %s | %s' % (op, alg, ' | '.join(steps))
+
+
+def bitlen_cases(alg, rng, thorough):
+    """pieces given with their bit length"""
+    B, c = HC.blocklen(alg), HC.cntlen(alg)
+    lens = (0, 1, B - c, B - 1, B, B + 5, 2 * B, 3 * B - 1, 4 * B) if thorough else (0, B - 1, B, B + 5, 2 * B)
+    for n in lens:
+        M = rnd(rng, n)
+        for bufblocks in (1, 2):
+            for stall in (None, 0, 1):
+                yield readinto_line('hashseq', alg, M, bufblocks, stall, rng), 'bitlen:readinto buffer'
+    yield readinto_line('hashseqc', alg, rnd(rng, 2 * B), 1, 1, rng), 'bitlen:readinto buffer'
+    yield readinto_line('hashseqc', alg, rnd(rng, B + 3), 2, 0, rng), 'bitlen:readinto buffer'
+    # single shapes: L = 0 on a non-empty buffer / L = 8n of a longer buffer, on non-final and final pieces, mixed with plain pieces
+    b1, b2, junk, t = rnd(rng, B), rnd(rng, 2 * B), rnd(rng, 5), rnd(rng, 7)
+    U = lambda m, L=None: 'upd %s' % hx(m) + ('' if L is None else ' %d' % L)
+    F = lambda m, L=None: 'fin %s' % hx(m) + ('' if L is None else ' %d' % L)
+    S = lambda *st: ('hashseq %s | ' % alg) + ' | '.join(st)
+    yield S(F(t, 0)), 'bitlen:0 on data'
+    yield S(F(b1 + junk, 0)), 'bitlen:0 on data'
+    yield S(U(b1, 0), F(t)), 'bitlen:0 on data'
+    yield S(U(b1), F(t, 0)), 'bitlen:0 on data'
+    yield S(U(b1), U(b2, 0), F(t, 0)), 'bitlen:0 on data'
+    yield S(U(b1, 0), U(b2, 0), F(b'')), 'bitlen:0 on data'
+    yield S(U(b1), U(junk, 0), U(b2), F(b1, 0)), 'bitlen:0 on data'
+    yield S(U(b1 + junk, 8 * B), F(t)), 'bitlen:8n of a longer buffer'
+    yield S(U(b2 + b1, 8 * B), U(b2, 16 * B), F(t)), 'bitlen:8n of a longer buffer'
+    yield S(U(b2, 8 * B), U(b1 + junk, 8 * B), F(b2 + t, 8 * B)), 'bitlen:8n of a longer buffer'
+    yield S(U(b1, 8 * B), F(b2, 8 * B + 8 * (B - c))), 'bitlen:8n of a longer buffer'
+    yield S(U(b1), F(b2 + junk, 16 * B)), 'bitlen:8n of a longer buffer'
+    yield S(U(b2, 16 * B), F(b1, 8 * (B - c) - 3)), 'bitlen:8n of a longer buffer'
+    # refused (code<->model; C01 has the predicate): a non-final L that is not whole blocks, L beyond the buffer
+    yield 'hashseqc %s | %s | %s' % (alg, U(b1, 8), F(t)), 'error:unaligned piece'
+    yield 'hashseqc %s | %s | %s' % (alg, U(b1, 8 * B + 8), F(t)), 'error:bitlen>piece'
+
+
+def history_cases(alg, rng, thorough):
+    """ONE object: a stream that is abandoned (blocks fed, never finalised), finished or refused, then initstate() and a
+    complete piecewise run; the bit counter is observed right after initstate()"""
+    B, c = HC.blocklen(alg), HC.cntlen(alg)
+    for k in (1, 2, 3):
+        befores = [['upd ' + hx(rnd(rng, k * B))], ['upd ' + hx(rnd(rng, B)) for _ in range(k)]]
+        if thorough or k == 1:
+            befores += [['upd ' + hx(rnd(rng, k * B)), 'fin ' + hx(rnd(rng, 3))], ['upd ' + hx(rnd(rng, k * B)), 'upd ' + hx(rnd(rng, 3))],
+                        ['upd ' + hx(rnd(rng, k * B)), 'fin %s 25' % hx(rnd(rng, 3))], ['upd ' + hx(rnd(rng, k * B)), 'init', 'upd ' + hx(rnd(rng, B))]]
+        for bi, before in enumerate(befores):
+            full = thorough or bi == 0
+            for tl in ((0, 11, B - c) if thorough else (0, 11) if full else (11,)):
+                m = rnd(rng, (2 if full else 1) * B + tl)
+                for cs in (((), (1,), (2,), (1, 2), (0, 1, 1)) if thorough else ((), (1,), (1, 2), (0, 1, 1)) if full else ((), (1,))):
+                    run = seq_line('hashseq', alg, m, [x * B for x in cs]).split(' | ', 1)[1]
+                    yield 'hashseq %s | %s | init | %s' % (alg, ' | '.join(before), run), 'history:abandoned stream, init, stream'
+        m = rnd(rng, B + 11)
+        yield 'hashseqc %s | upd %s | init | upd %s | fin %s' % (alg, hx(rnd(rng, k * B)), hx(m[:B]), hx(m[B:])), 'history:abandoned stream, init, stream'
+    yield 'hashseq %s | init | init | fin %s' % (alg, hx(rnd(rng, 3))), 'history:abandoned stream, init, stream'
+
+
 def cases(tier, rng):
     if tier == 'search':
         while True:
             alg = rng.choice(HC.NAMES); B = HC.blocklen(alg)
+            k = rng.randrange(4)
+            if k == 0:
+                yield readinto_line('hashseq', alg, rnd(rng, rng.choice([0, 1, B, 2 * B, rng.randrange(0, 4 * B)])), rng.choice([1, 2]),
+                                    rng.choice([None, 0, 1, 2]), rng), 'search'
+                continue
+            if k == 1:
+                m = rnd(rng, rng.randrange(0, 3) * B + rng.randrange(0, B))
+                cuts = sorted(rng.randrange(0, len(m) // B + 1) * B for _ in range(rng.randrange(0, 3)))
+                before = ['upd ' + hx(rnd(rng, B)) for _ in range(rng.randrange(1, 4))] + rng.choice([[], ['fin x00'], ['upd x00']])
+                yield 'hashseq %s | %s | init | %s' % (alg, ' | '.join(before), seq_line('hashseq', alg, m, cuts).split(' | ', 1)[1]), 'search'
+                continue
             nb = rng.randrange(0, 7); m = rnd(rng, nb * B + rng.randrange(0, B + 2))
             cuts = sorted(rng.randrange(0, nb + 1) * B for _ in range(rng.randrange(0, 5)))
             yield seq_line('hashseq', alg, m, cuts), 'search'
@@ -107,6 +213,8 @@ def cases(tier, rng):
             yield 'hashseq %s | fin %s %d' % (alg, hx(p2), L), 'bitlen on final'
             yield 'hashseq %s | upd %s | fin %s %d' % (alg, hx(p1), hx(p2), L), 'bitlen on final'
             yield 'hashseq %s | upd %s | fin %s %d' % (alg, hx(p1), hx(p1 + p2), 8 * B + L), 'bitlen on final'
+        yield from bitlen_cases(alg, rng, thorough)
+        yield from history_cases(alg, rng, thorough)
 
 
 def shrink(line):
